@@ -37,6 +37,7 @@ typedef struct carquet_column_data {
     carquet_physical_type_t type;
     int32_t type_length;        /* For fixed-length types */
     carquet_data_ownership_t ownership;  /* OWNED or VIEW (for future zero-copy) */
+    uint8_t* byte_data;         /* Bytes the BYTE_ARRAY values point to (owned) */
 } carquet_column_data_t;
 
 struct carquet_row_batch {
@@ -504,6 +505,38 @@ carquet_status_t carquet_batch_reader_next(
 
             col_data->num_values = values_read;
 
+            /* BYTE_ARRAY values point into page or dictionary buffers of the
+             * column reader, which are released as reading moves on. The batch
+             * promises its data until it is freed, so it takes a copy. */
+            if (col_data->type == CARQUET_PHYSICAL_BYTE_ARRAY) {
+                carquet_byte_array_t* arr = (carquet_byte_array_t*)col_data->data;
+                int64_t present = values_read;
+                if (def_levels) {
+                    present = 0;
+                    for (int64_t j = 0; j < values_read; j++) {
+                        if (def_levels[j] >= max_def) present++;
+                    }
+                }
+                size_t total = 0;
+                for (int64_t j = 0; j < present; j++) {
+                    if (arr[j].length > 0) total += (size_t)arr[j].length;
+                }
+                col_data->byte_data = malloc(total > 0 ? total : 1);
+                if (!col_data->byte_data) {
+                    BATCH_SET_READ_ERROR();
+                    free(def_levels);
+                    continue;
+                }
+                size_t at = 0;
+                for (int64_t j = 0; j < present; j++) {
+                    if (arr[j].length > 0 && arr[j].data) {
+                        memcpy(col_data->byte_data + at, arr[j].data, (size_t)arr[j].length);
+                        arr[j].data = col_data->byte_data + at;
+                        at += (size_t)arr[j].length;
+                    }
+                }
+            }
+
             /* Build null bitmap from definition levels */
             if (def_levels && col_data->null_bitmap) {
                 int64_t full_bytes = values_read / 8;
@@ -606,6 +639,7 @@ void carquet_row_batch_free(carquet_row_batch_t* batch) {
         }
         /* null_bitmap is always owned */
         free(batch->columns[i].null_bitmap);
+        free(batch->columns[i].byte_data);
     }
 
     carquet_arena_destroy(&batch->arena);
